@@ -1,0 +1,162 @@
+//go:build verif
+
+// Contracts for package searcher: DisjunctionSliceSearcher (read by /verif/gocv; comment-only effect
+// with the verif tag off). Protocol level (C08): results strictly ascending, Advance lands at or after
+// the target, every call on a child satisfies the child's precondition (forward targets only), no
+// panic, representation invariant preserved. Set level (C02), for a plain OR (min <= 1): given
+// children that satisfy the Searcher contract, Next returns the least id that SOME child matches
+// beyond the last returned one and Advance the least at or after the target; nil only when there is
+// none: nothing is skipped, nothing is returned twice. With min >= 2 only the protocol level is
+// stated (counting the children that match an id is not expressed).
+
+package searcher
+
+// ---- representation ----
+// currs[k] is child k's current match (the child's cursor is exactly there), nil once child k is
+// exhausted. matching / matchingIdxs are the matches at the least id and their children; mpos is
+// the ghost inverse of matchingIdxs (position of child k in matchingIdxs), which makes "child k is
+// among the matching ones" a quantifier-free statement.
+//@ ghostfield DisjunctionSliceSearcher.mpos [1073741824]int
+//@ spec dsShape(s *DisjunctionSliceSearcher) bool = len(s.currs) == len(s.searchers) && forall(k, 0, len(s.searchers), s.searchers[k] != nil && s.searchers[k] != s && childIdx(s.searchers[k]) == k)
+// the pool's free list, currs and matching are three different arrays (all hold *DocumentMatch)
+//@ spec dsApartM(s *DisjunctionSliceSearcher) bool = cap(s.currs) == 0 || base(s.matching) != base(s.currs)
+//@ spec dsApart(ctx *search.SearchContext, s *DisjunctionSliceSearcher) bool = ctx != nil && ctx.DocumentMatchPool != nil && dsApartM(s) && \
+//@     (cap(s.currs) == 0 || base(ctx.DocumentMatchPool.avail) != base(s.currs)) && (cap(s.matching) == 0 || base(ctx.DocumentMatchPool.avail) != base(s.matching))
+//@ spec dsSlot(s *DisjunctionSliceSearcher, k int) bool = implies(s.currs[k] != nil, s.searchers[k].started && !s.searchers[k].done && s.searchers[k].last == dmKey(s.currs[k]) && s.currs[k].cowner == s.searchers[k] && childIdx(s.currs[k].cowner) == k && mset(s.searchers[k], dmKey(s.currs[k]))) && \
+//@     implies(s.currs[k] == nil, s.searchers[k].done)
+// before the first call the children have not been touched
+//@ spec dsFresh(s *DisjunctionSliceSearcher) bool = forall(k, 0, len(s.searchers), s.currs[k] == nil && !s.searchers[k].started && !s.searchers[k].done)
+// every child is beyond the last id this searcher returned
+//@ spec dsAhead(s *DisjunctionSliceSearcher) bool = forall(k, 0, len(s.searchers), implies(s.started && s.currs[k] != nil, s.searchers[k].last > s.last))
+// the first n children: mt / ix are exactly the current matches at the least id, in child order
+//@ spec dsMatchA(s *DisjunctionSliceSearcher, mt []*search.DocumentMatch, ix []int, mp [1073741824]int, n int) bool = len(mt) == len(ix) && \
+//@     forall(j, 0, len(ix), 0 <= ix[j] && ix[j] < n && mp[ix[j]] == j && mt[j] == s.currs[ix[j]] && mt[j] != nil && dmKey(mt[j]) == dmKey(mt[0]))
+//@ spec dsMatchB(s *DisjunctionSliceSearcher, mt []*search.DocumentMatch, ix []int, mp [1073741824]int, n int) bool = \
+//@     forall(k, 0, n, implies(s.currs[k] != nil, len(mt) > 0 && dmKey(s.currs[k]) >= dmKey(mt[0]) && implies(dmKey(s.currs[k]) == dmKey(mt[0]), 0 <= mp[k] && mp[k] < len(ix) && ix[mp[k]] == k))) && \
+//@     forall(k, 0, n, implies(0 <= mp[k] && mp[k] < len(ix) && ix[mp[k]] == k, s.currs[k] != nil && s.currs[k] == mt[mp[k]] && dmKey(s.currs[k]) == dmKey(mt[0])))
+//@ spec dsMatchPre(s *DisjunctionSliceSearcher, mt []*search.DocumentMatch, ix []int, mp [1073741824]int, n int) bool = dsMatchA(s, mt, ix, mp, n) && dsMatchB(s, mt, ix, mp, n)
+//@ spec dsMatchOK(s *DisjunctionSliceSearcher) bool = dsMatchPre(s, s.matching, s.matchingIdxs, s.mpos, len(s.currs))
+// child k is among the matching ones / has been moved on by the first n steps of the bump loop
+//@ spec dsInM(s *DisjunctionSliceSearcher, k int) bool = 0 <= s.mpos[k] && s.mpos[k] < len(s.matchingIdxs) && s.matchingIdxs[s.mpos[k]] == k
+//@ spec dsBumped(s *DisjunctionSliceSearcher, k int, n int) bool = dsInM(s, k) && s.mpos[k] < n
+//@ spec dsIdxOK(s *DisjunctionSliceSearcher) bool = len(s.matching) == len(s.matchingIdxs) && forall(j, 0, len(s.matchingIdxs), 0 <= s.matchingIdxs[j] && s.matchingIdxs[j] < len(s.currs) && s.mpos[s.matchingIdxs[j]] == j)
+
+// ---- set level (C02): a disjunction (min <= 1) matches the ids that some child matches ----
+// lb: a lower bound set by Advance for the duration of its call (ids below it are skipped on purpose)
+//@ ghostfield DisjunctionSliceSearcher.lbset bool
+//@ ghostfield DisjunctionSliceSearcher.lb string
+// x is still to be delivered as far as the cursor (st, la) and the bound are concerned
+//@ spec dsTodo(st bool, la string, lbset bool, lb string, x string) bool = unconsumed(st, la, x) && implies(lbset, x >= lb)
+// what child k matches and is still to be delivered lies at or after child k's position; an
+// exhausted child has nothing left to deliver
+//@ spec dsRk(s *DisjunctionSliceSearcher, k int) bool = all(x, string, implies(mset(s.searchers[k], x) && dsTodo(s.started, s.last, s.lbset, s.lb, x), s.currs[k] != nil && x >= dmKey(s.currs[k])))
+//@ spec dsR(s *DisjunctionSliceSearcher) bool = forall(k, 0, len(s.searchers), dsRk(s, k))
+// what child k matches beyond b lies at or after child k's position
+//@ spec dsAfter(s *DisjunctionSliceSearcher, k int, b string) bool = all(x, string, implies(mset(s.searchers[k], x) && x > b, s.currs[k] != nil && x >= dmKey(s.currs[k])))
+//@ spec dsLbOK(s *DisjunctionSliceSearcher) bool = implies(s.lbset, forall(k, 0, len(s.searchers), implies(s.currs[k] != nil, dmKey(s.currs[k]) >= s.lb)))
+// the first matching entry: child matchingIdxs[0]'s current match, beyond the cursor and the bound
+//@ spec dsHead(s *DisjunctionSliceSearcher) bool = len(s.matching) > 0 && len(s.matchingIdxs) > 0 && 0 <= s.matchingIdxs[0] && s.matchingIdxs[0] < len(s.searchers) && s.matching[0] != nil && s.matching[0] == s.currs[s.matchingIdxs[0]] && \
+//@     s.matching[0].cowner == s.searchers[s.matchingIdxs[0]] && childIdx(s.matching[0].cowner) == s.matchingIdxs[0] && mset(s.searchers[s.matchingIdxs[0]], dmKey(s.matching[0])) && s.searchers[s.matchingIdxs[0]].last == dmKey(s.matching[0]) && \
+//@     implies(s.started, dmKey(s.matching[0]) > s.last) && implies(s.lbset, dmKey(s.matching[0]) >= s.lb)
+//@ spec dsInv(s *DisjunctionSliceSearcher) bool = dsShape(s) && implies(!s.initialized, dsFresh(s) && !s.started) && \
+//@     implies(s.initialized, forall(k, 0, len(s.searchers), dsSlot(s, k)) && dsAhead(s) && dsMatchOK(s) && implies(s.min <= 1 && !s.done, dsR(s)))
+
+// updateMatches: the matches at the least id, in child order
+//@ func DisjunctionSliceSearcher.updateMatches
+//@   props C08 C02
+//@   mode int
+//@   nomerge
+//@   requires s != nil && dsApartM(s)
+//@   modifies s.matching, s.matchingIdxs, s.matching[*], s.matchingIdxs[*], s.mpos
+//@   at call append#1 after: ghost s.mpos = upd(s.mpos, i, len(matchingIdxs))
+//@   ensures result == nil && dsMatchOK(s) && ((base(s.matching) == old(base(s.matching)) && cap(s.matching) == old(cap(s.matching))) || (fresh(s.matching) && cap(s.matching) > 0))
+//@   loop 0: invariant 0 <= i && i <= len(s.currs) && ((base(matching) == old(base(s.matching)) && cap(matching) == old(cap(s.matching))) || (fresh(matching) && cap(matching) > 0)) && (base(matchingIdxs) == old(base(s.matchingIdxs)) || fresh(matchingIdxs))
+//@   loop 0: invariant dsMatchA(s, matching, matchingIdxs, s.mpos, i)
+//@   loop 0: invariant dsMatchB(s, matching, matchingIdxs, s.mpos, i)
+//@   loop 0: decreases len(s.currs) - i
+
+// initSearchers: every child is moved to its first match
+//@ func DisjunctionSliceSearcher.initSearchers
+//@   props C08 C02
+//@   mode int
+//@   prune
+//@   requires s != nil && dsApart(ctx, s) && dsShape(s) && !s.initialized && dsFresh(s)
+//@   modifies s.initialized, s.currs[*], s.matching, s.matchingIdxs, s.matching[*], s.matchingIdxs[*], s.mpos, fields(search.DocumentMatch), search.DocumentMatch.cowner, search.DocumentMatchPool.avail, mem(*search.DocumentMatch), search.Searcher.started, search.Searcher.last, search.Searcher.done
+//@   at call searcher.Next#0 after: ghost result0.cowner = recv
+//@   ensures dsApart(ctx, s) && dsShape(s) && s.currs == old(s.currs) && s.searchers == old(s.searchers) && s.started == old(s.started) && s.last == old(s.last) && s.done == old(s.done) && s.lbset == old(s.lbset) && s.lb == old(s.lb)
+//@   ensures implies(result == nil, s.initialized && forall(k, 0, len(s.searchers), dsSlot(s, k)) && dsMatchOK(s))
+// set level: everything a child matches lies at or after that child's first match
+//@   ensures implies(result == nil, forall(k, 0, len(s.searchers), all(x, string, implies(mset(s.searchers[k], x), s.currs[k] != nil && x >= dmKey(s.currs[k])))))
+//@   loop 0: invariant dsApart(ctx, s) && dsShape(s) && !s.initialized && s.currs == old(s.currs) && s.searchers == old(s.searchers) && s.matching == old(s.matching) && s.started == old(s.started) && s.last == old(s.last) && s.done == old(s.done) && s.lbset == old(s.lbset) && s.lb == old(s.lb)
+//@   loop 0: invariant forall(k, 0, iter, dsSlot(s, k)) && forall(k, iter, len(s.searchers), s.currs[k] == nil && !s.searchers[k].started && !s.searchers[k].done)
+//@   loop 0: invariant forall(k, 0, iter, all(x, string, implies(mset(s.searchers[k], x), s.currs[k] != nil && x >= dmKey(s.currs[k]))))
+
+// Next: the matches at the least id are scored into one result (if there are at least min of
+// them), and their children are moved on.
+//@ func DisjunctionSliceSearcher.Next
+//@   props C08 C02
+//@   mode int
+//@   prune
+// (calls after exhaustion are not covered: requires !s.done; the kNN score-breakdown variant is not covered)
+//@   requires s != nil && dsApart(ctx, s) && dsInv(s) && s.scorer != nil && !s.retrieveScoreBreakdown && !s.done && dsLbOK(s) && implies(!s.initialized, !s.lbset)
+//@   modifies s.lbset, s.lb, s.mpos, fields(DisjunctionSliceSearcher), s.currs[*], s.matching[*], s.matchingIdxs[*], mem(int), fields(search.DocumentMatch), search.DocumentMatch.cowner, search.DocumentMatchPool.avail, mem(*search.DocumentMatch), search.Searcher.started, search.Searcher.last, search.Searcher.done
+//@   at call searcher.Next#0 after: ghost result0.cowner = recv
+// (stepping stone: what the first matching entry is, before it is handed to the scorer)
+//@   at call s.scorer.Score#0: assert dsHead(s)
+//@   at return: ghost s.started = s.started || (result1 == nil && result0 != nil)
+//@   at return: ghost s.last = ite(result1 == nil && result0 != nil, dmKey(result0), s.last)
+//@   at return: ghost s.done = s.done || (result1 == nil && result0 == nil)
+//@   at return: ghost s.lbset = false
+//@   ensures implies(result1 == nil, dsApart(ctx, s) && dsInv(s) && s.initialized) && !s.lbset
+//@   ensures s.currs == old(s.currs) && s.searchers == old(s.searchers) && s.scorer == old(s.scorer) && s.min == old(s.min) && s.retrieveScoreBreakdown == old(s.retrieveScoreBreakdown)
+//@   ensures implies(result1 == nil && result0 != nil, ascending(old(s.started), old(s.last), result0) && s.started && s.last == dmKey(result0) && implies(old(s.lbset), dmKey(result0) >= old(s.lb)))
+// the result is a match of one of the children
+//@   ensures implies(result1 == nil && result0 != nil, mset(result0.cowner, dmKey(result0)) && 0 <= childIdx(result0.cowner) && childIdx(result0.cowner) < len(s.searchers) && s.searchers[childIdx(result0.cowner)] == result0.cowner)
+//@   ensures implies(result1 == nil && result0 == nil, s.done)
+// set level (min <= 1): nothing some child matches and that is still to be delivered lies before the result; nil means nothing was left
+//@   ensures implies(result1 == nil && result0 != nil && s.min <= 1, forall(k, 0, len(s.searchers), all(x, string, implies(mset(s.searchers[k], x) && dsTodo(old(s.started), old(s.last), old(s.lbset), old(s.lb), x), x >= dmKey(result0)))))
+//@   ensures implies(result1 == nil && result0 == nil && s.min <= 1, forall(k, 0, len(s.searchers), all(x, string, !(mset(s.searchers[k], x) && dsTodo(old(s.started), old(s.last), old(s.lbset), old(s.lb), x)))))
+//@   loop 0: invariant s.initialized && dsShape(s) && dsApart(ctx, s) && forall(k, 0, len(s.searchers), dsSlot(s, k)) && dsAhead(s) && dsMatchOK(s) && dsLbOK(s) && found == (rv != nil)
+//@   loop 0: invariant s.currs == old(s.currs) && s.searchers == old(s.searchers) && s.scorer == old(s.scorer) && s.min == old(s.min) && !s.retrieveScoreBreakdown && s.started == old(s.started) && s.last == old(s.last) && s.done == old(s.done) && s.lbset == old(s.lbset) && s.lb == old(s.lb)
+//@   loop 0: invariant implies(!found && s.min <= 1, dsR(s))
+//@   loop 0: invariant implies(found, ascending(s.started, s.last, rv) && implies(s.lbset, dmKey(rv) >= s.lb) && mset(rv.cowner, dmKey(rv)) && 0 <= childIdx(rv.cowner) && childIdx(rv.cowner) < len(s.searchers) && s.searchers[childIdx(rv.cowner)] == rv.cowner)
+//@   loop 0: invariant implies(found, forall(k, 0, len(s.searchers), implies(s.currs[k] != nil, s.searchers[k].last > dmKey(rv))))
+//@   loop 0: invariant implies(found && s.min <= 1, forall(k, 0, len(s.searchers), dsAfter(s, k, dmKey(rv)) && all(x, string, implies(mset(s.searchers[k], x) && dsTodo(s.started, s.last, s.lbset, s.lb, x), x >= dmKey(rv)))))
+//@   loop 1: invariant s.initialized && dsShape(s) && dsApart(ctx, s) && dsIdxOK(s) && found == (rv != nil)
+//@   loop 1: invariant s.currs == old(s.currs) && s.searchers == old(s.searchers) && s.scorer == old(s.scorer) && s.min == old(s.min) && !s.retrieveScoreBreakdown && s.started == old(s.started) && s.last == old(s.last) && s.done == old(s.done) && s.lbset == old(s.lbset) && s.lb == old(s.lb)
+//@   loop 1: invariant implies(found, ascending(s.started, s.last, rv) && implies(s.lbset, dmKey(rv) >= s.lb) && mset(rv.cowner, dmKey(rv)) && 0 <= childIdx(rv.cowner) && childIdx(rv.cowner) < len(s.searchers) && s.searchers[childIdx(rv.cowner)] == rv.cowner)
+//@   loop 1: invariant implies(found && s.min <= 1, forall(k, 0, len(s.searchers), all(x, string, implies(mset(s.searchers[k], x) && dsTodo(s.started, s.last, s.lbset, s.lb, x), x >= dmKey(rv)))))
+// children moved on so far
+//@   loop 1: invariant forall(k, 0, len(s.searchers), implies(dsBumped(s, k, iter), dsSlot(s, k) && implies(s.currs[k] != nil, implies(s.started, s.searchers[k].last > s.last) && implies(s.lbset, s.searchers[k].last >= s.lb) && implies(found, s.searchers[k].last > dmKey(rv))) && implies(found && s.min <= 1, dsAfter(s, k, dmKey(rv)))))
+// children not moved on (yet)
+//@   loop 1: invariant forall(k, 0, len(s.searchers), implies(!dsBumped(s, k, iter), dsSlot(s, k) && implies(s.currs[k] != nil, implies(s.started, s.searchers[k].last > s.last) && implies(s.lbset, s.searchers[k].last >= s.lb)) && implies(s.min <= 1, dsRk(s, k))))
+//@   loop 1: invariant forall(k, 0, len(s.searchers), implies(!dsBumped(s, k, iter) && dsInM(s, k), s.currs[k] != nil && implies(found, s.searchers[k].last == dmKey(rv))))
+//@   loop 1: invariant forall(k, 0, len(s.searchers), implies(!dsInM(s, k) && found && s.currs[k] != nil, s.searchers[k].last > dmKey(rv)))
+//@   loop 1: isolate
+
+// Advance: children behind the target are advanced, then Next delivers the least id
+//@ func DisjunctionSliceSearcher.Advance
+//@   props C08 C02
+//@   mode int
+//@   requires s != nil && dsApart(ctx, s) && dsInv(s) && s.scorer != nil && !s.retrieveScoreBreakdown && !s.done && unconsumed(s.started, s.last, idKey(ID)) && !s.lbset
+//@   at entry: ghost s.lbset = true
+//@   at entry: ghost s.lb = idKey(ID)
+//@   at call s.Next#0: assert s.initialized && dsLbOK(s)
+//@   at call searcher.Advance#0 after: ghost result0.cowner = recv
+//@   modifies s.lbset, s.lb, s.mpos, fields(DisjunctionSliceSearcher), s.currs[*], s.matching[*], s.matchingIdxs[*], mem(int), fields(search.DocumentMatch), search.DocumentMatch.cowner, search.DocumentMatchPool.avail, mem(*search.DocumentMatch), search.Searcher.started, search.Searcher.last, search.Searcher.done
+//@   at return: ghost s.started = s.started || (result1 == nil && result0 != nil)
+//@   at return: ghost s.last = ite(result1 == nil && result0 != nil, dmKey(result0), s.last)
+//@   at return: ghost s.done = s.done || (result1 == nil && result0 == nil)
+//@   ensures implies(result1 == nil, dsApart(ctx, s) && s.initialized && dsShape(s))
+//@   ensures implies(result1 == nil, forall(k, 0, len(s.searchers), dsSlot(s, k)))
+//@   ensures implies(result1 == nil, dsAhead(s))
+//@   ensures implies(result1 == nil, dsMatchOK(s))
+//@   ensures implies(result1 == nil, implies(s.min <= 1 && !s.done, dsR(s)))
+//@   ensures implies(result1 == nil && result0 != nil, dmKey(result0) >= idKey(ID) && ascending(old(s.started), old(s.last), result0) && s.started && s.last == dmKey(result0))
+//@   ensures implies(result1 == nil && result0 != nil, mset(result0.cowner, dmKey(result0)) && 0 <= childIdx(result0.cowner) && childIdx(result0.cowner) < len(s.searchers) && s.searchers[childIdx(result0.cowner)] == result0.cowner)
+// set level (min <= 1): the first id at or after the target that some child matches; nil: there is none
+//@   ensures implies(result1 == nil && result0 != nil && s.min <= 1, forall(k, 0, len(s.searchers), all(x, string, implies(mset(s.searchers[k], x) && x >= idKey(ID), x >= dmKey(result0)))))
+//@   ensures implies(result1 == nil && result0 == nil && s.min <= 1, forall(k, 0, len(s.searchers), all(x, string, implies(mset(s.searchers[k], x), x < idKey(ID)))))
+//@   ensures implies(result1 == nil && result0 == nil, s.done)
+//@   loop 0: invariant s.initialized && dsShape(s) && dsApart(ctx, s) && forall(k, 0, len(s.searchers), dsSlot(s, k)) && dsAhead(s) && implies(s.min <= 1, dsR(s)) && s.lbset && s.lb == idKey(ID) && s.scorer != nil && !s.retrieveScoreBreakdown
+//@   loop 0: invariant s.currs == old(s.currs) && s.searchers == old(s.searchers) && s.min == old(s.min) && s.started == old(s.started) && s.last == old(s.last) && s.done == old(s.done) && forall(k, 0, iter, implies(s.currs[k] != nil, dmKey(s.currs[k]) >= idKey(ID)))
